@@ -225,3 +225,19 @@ def attempt_rows_twice(build):
 def short(obj, n=400):
     s = repr(obj)
     return s if len(s) <= n else s[:n] + '...<%d more>' % (len(s) - n)
+
+
+def fresh(v):
+    """an object equal to v but not identical with it, where the type allows one (a marker such as 'NA' or -999 that the caller
+    built separately from the cells that hold it); v itself for None, bool, small ints and other values that only exist once"""
+    if isinstance(v, str) and len(v) >= 2:
+        return ''.join(list(v))
+    if isinstance(v, bytes) and len(v) >= 2:
+        return bytes(bytearray(v))
+    if isinstance(v, float):
+        return float(repr(v))
+    if isinstance(v, int) and not isinstance(v, bool) and not -5 <= v <= 256:
+        return int(str(v))
+    if isinstance(v, tuple) and v:
+        return tuple(list(v))
+    return v
